@@ -1,22 +1,25 @@
 """C01: ordinary cell hash/depth = TON representation hash/depth, through every construction route."""
 from ..gen import cells as G
-from ..translate import arith, cellctor
+from ..translate import arith, cellctor, cellentry
 
 SPEC = dict(
     manifest=dict(
         category='proof',
-        text='Lean proves for EVERY tree of ordinary cells (all bit lengths, ref counts, shapes; SHA-256 abstract) that the model of Cell.__init__ is constructible iff depth<=1023 and reports the textbook representation hash/depth at every level, that get_representation hashes to the cached hash, that ==/__hash__ coincide with hash equality, and that the standard representation is injective (c01_repr_injective: d1 d2 ++ padded data ++ child depths ++ child hashes determines the BIT STRING -- the completion-tag padding is invertible given d2, Proofs/Pad.lean -- the reference count and every child depth field and hash; c01_hash_binding: equal hashes without a collision on the two representations mean equal bits and child hashes). The model is tied to the code by differential correspondence through 12 construction routes. The integer arithmetic the model rests on (descriptors, level-mask functions, depth limit, pruned offsets) is additionally REGENERATED from the Python source on every run and proved equal to the model/spec for all inputs (c0x_src_* theorems). The WHOLE constructor is regenerated as well: Cell.__init__ with resolve_mask, the calculate_hashes loop (hash-index bookkeeping, the three raise points, child depths and hashes fed to the hash object), get_descriptors, the completion-tag padding of get_data_bytes, get_hash/get_depth of the children and NullCell.__init__ are re-translated into Generated/CellCtor.lean on every run (harness/translate/pyobj.py + cellctor.py, validated against the running library on about 480 cells each time the source or translator changes), and Lean proves for ALL cell types, bit strings and child infos that the regenerated constructor equals the hand model Model.construct including Cell.hash, the descriptor bytes and the padded data (c01_src_constructor; Proofs/SrcCellCtor.lean), so c01_hash_depth / c01_constructible_iff hold for what the source computes (c01_src_hash_depth). A source change inside the translatable subset breaks this proof and the check then evaluates regenerated constructor vs model on boundary DAGs to hand the differing cells to the oracle; outside the subset the tie is reported lost and the sampled correspondence decides.',
-        level_note='Trusted: Lean kernel (propext, Classical.choice, Quot.sound), the source translators pyarith.py / pyobj.py with their declared interface (attribute types, a child cell = its CellInfo, sha256 streaming = hash of the concatenation, bitarray/int built-ins of PyObj.lean; differentially validated against CPython), Model/Cell.lean as a hand transcription of cell.py/exotic.py (for the constructor now proved equal to the regenerated source, c01_src_constructor; elsewhere checked by sampled correspondence: ~29k node observations per quick run incl. every bit-length class and depth 1022-1025 chains), bitarray/hashlib semantics, the Python harness.',
-        technique='Lean 4 refinement proof (hand model) + constructor regenerated from the source and proved equal to the model for all inputs + differential correspondence with the library',
+        text='Lean proves for EVERY tree of ordinary cells (all bit lengths, ref counts, shapes; SHA-256 abstract) that the model of Cell.__init__ is constructible iff depth<=1023 and reports the textbook representation hash/depth at every level, that get_representation hashes to the cached hash, that ==/__hash__ coincide with hash equality, and that the standard representation is injective (c01_repr_injective: d1 d2 ++ padded data ++ child depths ++ child hashes determines the BIT STRING -- the completion-tag padding is invertible given d2, Proofs/Pad.lean -- the reference count and every child depth field and hash; c01_hash_binding: equal hashes without a collision on the two representations mean equal bits and child hashes). The model is tied to the code by differential correspondence through 12 construction routes. The integer arithmetic the model rests on (descriptors, level-mask functions, depth limit, pruned offsets) is additionally REGENERATED from the Python source on every run and proved equal to the model/spec for all inputs (c0x_src_* theorems). The WHOLE constructor is regenerated as well: Cell.__init__ with resolve_mask, the calculate_hashes loop (hash-index bookkeeping, the three raise points, child depths and hashes fed to the hash object), get_descriptors, the completion-tag padding of get_data_bytes, get_hash/get_depth of the children and NullCell.__init__ are re-translated into Generated/CellCtor.lean on every run (harness/translate/pyobj.py + cellctor.py, validated against the running library on about 480 cells each time the source or translator changes), and Lean proves for ALL cell types, bit strings and child infos that the regenerated constructor equals the hand model Model.construct including Cell.hash, the descriptor bytes and the padded data (c01_src_constructor; Proofs/SrcCellCtor.lean), so c01_hash_depth / c01_constructible_iff hold for what the source computes (c01_src_hash_depth). A source change inside the translatable subset breaks this proof and the check then evaluates regenerated constructor vs model on boundary DAGs to hand the differing cells to the oracle; outside the subset the tie is reported lost and the sampled correspondence decides. The OBSERVERS are regenerated too (harness/translate/cellentry.py -> Generated/CellEntry.lean, same program as the constructor, validated against the library on the same ~480 cells): Cell.get_representation (descriptors ++ data or the previous hash ++ child depths ++ child hashes, the Merkle level shift, one loop over the references), calculate_representation_hash, the property hash, __eq__ and __hash__ are proved equal to Model.representation / CellInfo.pyEq / pyHash for ALL infos and child infos (c01_src_observers), and the three statements are restated about the regenerated code: c01_src_repr_agrees (for every ordinary cell of depth <= 1023 the regenerated calculate_representation_hash on the attributes the regenerated constructor leaves behind returns the cached Cell.hash), c01_src_eq_iff_hash, c01_src_pyhash_iff_hash (neither raises; True / equal dict keys exactly when the hashes are equal). A change of these lines inside the subset breaks a proof; the check then lets Lean compare regenerated vs model per cell (cellentry.diff_dags) and hands the differing cells to the oracle (representation hash vs spec, == / hash() / dict lookup over all pairs).',
+        level_note='Trusted: Lean kernel (propext, Classical.choice, Quot.sound), the source translators pyarith.py / pyobj.py with their declared interface (attribute types, a child cell = its CellInfo, sha256 streaming = hash of the concatenation, bitarray/int built-ins of PyObj.lean; a property read = the call of its body; `other` in __eq__ is a constructed cell whose _hash is the hash of the model; differentially validated against CPython), Model/Cell.lean as a hand transcription of cell.py/exotic.py (for the constructor, get_representation, __eq__, __hash__ now proved equal to the regenerated source, c01_src_constructor / c01_src_observers; elsewhere checked by sampled correspondence: ~29k node observations per quick run incl. every bit-length class and depth 1022-1025 chains), bitarray/hashlib semantics, the Python harness.',
+        technique='Lean 4 refinement proof (hand model) + constructor, get_representation, __eq__, __hash__ regenerated from the source and proved equal to the model for all inputs + differential correspondence with the library',
     ),
     translators=[('cell.py d1/d2/depth-limit->Generated/CellArith.lean', arith.regenerator('CellArith')),
                  ('exotic.py LevelMask->Generated/LevelMask.lean', arith.regenerator('LevelMask')),
-                 ('cell.py Cell.__init__/resolve_mask/calculate_hashes/get_data_bytes->Generated/CellCtor.lean', cellctor.regenerate)],
+                 ('cell.py Cell.__init__/resolve_mask/calculate_hashes/get_data_bytes->Generated/CellCtor.lean', cellctor.regenerate),
+                 (cellentry.TIE_NAME, cellentry.regenerate)],
+    lean_targets=['TonVerif.Proofs.SrcCellEntry'],
     design_ref='DESIGN.md §6 C01',
     rule='ordinary-cell DAGs: every bit length class (all 1024 lengths in thorough), 0-4 refs, sharing, chains to depth 1022/1023/1024; '
          'each node observed through routes ctor/plain-bitarray/builder/boc/copy/slice/to_builder; distinct = distinct (dag, node, route); '
          'non-trivial = node has bits or refs',
-    trusted_base=['Model/Cell.lean mirrors Cell.__init__/calculate_hashes/get_hash/get_depth/get_representation by hand',
+    trusted_base=['Model/Cell.lean mirrors Cell.__init__/calculate_hashes/get_hash/get_depth/get_representation by hand (each proved equal to its regenerated counterpart: c01_src_constructor, c01_src_observers)',
+                  'harness/translate/cellentry.py (declared interface of get_representation / hash / __eq__ / __hash__: _hash assigned once as _hashes[-1]; _descriptors as stored by the constructor) for c01_src_repr_agrees / c01_src_eq_iff_hash / c01_src_pyhash_iff_hash',
                   'Spec/Cell.lean transcribes tvm.pdf 3.1.4-3.1.5', 'SHA-256 is an abstract parameter H in all theorems',
                   'lean/TonVerif/Sha256.lean (driver only) validated against hashlib on each run',
                   'harness/translate/pyarith.py + arith.py (Python int arithmetic -> Lean) and lean/TonVerif/PyInt.lean (meaning of bit_length / bin().count / math.ceil) for the c01_src_* theorems',
@@ -193,6 +196,18 @@ def src_search(ctx):
         check_dag(ctx, nodes[:max(idx) + 1], f'src-ctor-{tag}', derive=False, routes=['ctor'])
         if len(ctx.failures) > n0 + 3:
             break
+    if len(ctx.failures) > n0:
+        return True
+    # the cells on which the REGENERATED get_representation / calculate_representation_hash / __eq__ / __hash__
+    # (Generated/CellEntry.lean) and the hand model differ: check_dag compares the library's calculate_representation_hash and
+    # __hash__ with the spec, eq_pairs judges == / hash() / dict lookup over all pairs of the DAG
+    found = cellentry.diff_dags(ctx, dags)
+    found.sort(key=lambda f: sum(len(n[1]) for n in f[1]))
+    for tag, nodes, idx in found[:40]:
+        check_dag(ctx, nodes[:max(idx) + 1], f'src-entry-{tag}', derive=False, routes=['ctor'])
+        eq_pairs(ctx, nodes[:max(idx) + 1])
+        if len(ctx.failures) > n0 + 3:
+            break
     return len(ctx.failures) > n0
 
 
@@ -227,7 +242,10 @@ def run(ctx):
             eq_pairs(ctx, nodes)
     # near twins built next to each other in one process: cells differing only in what a cache key could forget
     for t in range(ctx.n(120, 1200)):
-        check_dag(ctx, G.near_twins(rng), f'twins{t}', derive=(t % 6 == 0), routes=[rng.choice(ROUTES)])
+        twins = G.near_twins(rng)
+        check_dag(ctx, twins, f'twins{t}', derive=(t % 6 == 0), routes=[rng.choice(ROUTES)])
+        if t % 4 == 0:
+            eq_pairs(ctx, twins)            # equal bits with different references, equal references with different bits: == / hash() must tell them apart
     # chains around the depth limit
     for depth in (1, 2, 1021, 1022, 1023, 1024, 1025):
         for width in (1, 2):
